@@ -4,6 +4,7 @@
 //@harness name=voiceset_new_empty tier=quick label=proved props=C19
 //@harness name=hole_streams_all_eq_contract tier=quick label=bounded(1-2-streams) props=C19 timeout=600
 //@harness name=voiceset_new_single tier=quick label=bounded(1-voice) props=C19
+// harness (NOT REGISTERED: exhausts 12 GB under CBMC even with concrete values) name=weighted_pairs_voices_with_weights tier=quick label=bounded(2-voices,concrete-values) props=C10 timeout=600
 // harness (NOT REGISTERED: derived PartialEq of the Voice metadata does not terminate under CBMC; the clause is proved by Verus unit voiceset) name=voiceset_new_global_metadata tier=thorough label=bounded(2-voices) props=C19 timeout=3000
 // harness (NOT REGISTERED: derived PartialEq of the Voice metadata does not terminate under CBMC; the clause is proved by Verus unit voiceset) name=voiceset_new_stream_metadata tier=thorough label=bounded(2-voices,1-stream) props=C19 timeout=3000
 // harness (NOT REGISTERED: two Arc<Voice> + the map/zip fold of weighted exhaust 12 GB under CBMC) name=weighted_vertex_reproduces_first tier=quick label=bounded(2-voices,vector=1) props=C10 timeout=600
@@ -211,4 +212,24 @@ impl VoiceSet {
     /// harness-only constructor that bypasses the metadata comparison of VoiceSet::new
     /// (intractable for CBMC); exists only under cfg(kani)
     pub(crate) fn verif_from(voices: Vec<Arc<Voice>>) -> Self { VoiceSet(voices) }
+}
+
+/// C10, VoiceSet::weighted: voice v is paired with weight v, in order, including zero and negative
+/// weights (concrete values: with symbolic ones the harness exhausts 12 GB).
+#[kani::proof]
+#[kani::unwind(4)]
+fn weighted_pairs_voices_with_weights() {
+    let p0 = ModelParameter { parameters: vec![MeanVari(3.0, 1.0)], msd: Some(0.5) };
+    let p1 = ModelParameter { parameters: vec![MeanVari(5.0, 2.0)], msd: Some(0.25) };
+    let vs = two_voice_set(p0, p1);
+    let w = Weights::new(&[1.5, -0.5]).unwrap();
+    let r = vs.weighted(&w, pdf0);
+    assert!(r.parameters.len() == 1);
+    assert!(r.parameters[0].0 == 3.0 * 1.5 + -0.5 * 5.0 && r.parameters[0].1 == 1.0 * 1.5 + -0.5 * 2.0);
+    assert!(r.msd == Some(1.5 * 0.5 + -0.5 * 0.25));
+    let w2 = Weights::new(&[0.0, 1.0]).unwrap();
+    let r2 = vs.weighted(&w2, pdf0);
+    assert!(r2.parameters[0].0 == 5.0 && r2.parameters[0].1 == 2.0 && r2.msd == Some(0.25));
+    kani::cover!(true);
+    std::mem::forget(vs);
 }
